@@ -328,20 +328,27 @@ func (l *log) GetByTime(start time.Time) (message.Message, error) {
 	l.readersMu.RLock()
 	defer l.readersMu.RUnlock()
 
+	emptyHead := false
 	for i := len(l.readers) - 1; i >= 0; i-- {
 		rdr := l.readers[i]
 
 		switch msg, err := rdr.GetByTime(ts, tctx); err {
 		case nil:
 			return msg, nil
+		case index.ErrTimeIndexEmpty:
+			// empty head segment (e.g. the newest messages got deleted), try the rest
+			if i == 0 {
+				return message.Invalid, err
+			}
+			emptyHead = true
 		case index.ErrTimeBeforeStart:
 			// not in this segment, try the rest
 			if i == 0 {
 				return rdr.Get(message.OffsetOldest)
 			}
 		case index.ErrTimeAfterEnd:
-			// time is between end of this and begin next
-			if i < len(l.readers)-1 {
+			// time is between end of this and begin next (unless next is the head we found empty)
+			if i < len(l.readers)-1 && !(emptyHead && i == len(l.readers)-2) {
 				nextRdr := l.readers[i+1]
 				return nextRdr.Get(message.OffsetOldest)
 			}
